@@ -9,3 +9,34 @@ check(
     'assumption (affine operations, no branching on coordinate values).',
     'DESIGN.md 3/C18',
 )
+check(
+    'C08',
+    'bounded exhaustive enumeration of states x actions x random outcomes against a reference kinematics model, plus BFS of reachable states of shipped configurations',
+    'Every grid with at most k non-floor cells (k<=1 over the full 19-symbol alphabet, k=2 over a reduced one; all '
+    'shapes up to 3x3, thorough up to 4x4) x every agent cell x heading x held item x all 8 actions x every built-in '
+    'transition function, the 4 shipped chains and the full chain x every resolution of the random picks is executed '
+    'on the real code and the resulting pose compared with a reference; the reachable graphs of the shipped '
+    'configurations are searched breadth-first with the invariant "agent inside the grid on a non-blocking cell".',
+    'Bounds: grid sizes, k, alphabet, the listed chains; reset outcomes complete or deviation-bounded as reported.',
+    'DESIGN.md 3/C08',
+)
+check(
+    'C09',
+    'bounded exhaustive enumeration of states x actions x random outcomes with an inventory (multiset) oracle and a reference pick-and-drop model; BFS inventory invariants',
+    'Same universe as C08 with held items: the multiset of non-floor objects plus the held item is compared before/after '
+    'every execution (box opening accounted for), pick-and-drop is compared with its reference, scenery cells are '
+    'compared cell by cell; key/door/exit/obstacle counts are invariants over every reachable state of the key-door, '
+    'obstacle, teleport configurations.',
+    'Bounds as reported in evidence; object alphabet = the 9 concrete types with 2 colours and nested boxes.',
+    'DESIGN.md 3/C09',
+)
+check(
+    'C10',
+    'bounded exhaustive enumeration of door/box/held-item/pose/action combinations against the actuation table; inductive edge invariant over BFS of key-door configurations',
+    'Every door status x colour, box content (nested), held item (none, key of each colour, non-key objects), agent '
+    'pose relative to the door/box and action is executed through every built-in function and chain; every door/box '
+    'cell is compared with the reference table. On every edge of the reachable graph of the key-door configurations '
+    'a door status change must be a faced ACTUATE with a matching key; the agent is never beyond a non-open door.',
+    'Bounds as reported; the history property is established inductively over explored edges from LOCKED initial doors.',
+    'DESIGN.md 3/C10',
+)
